@@ -104,30 +104,32 @@ Print Assumptions C18_run_refines_spec.
 (* ---- requests that overlap on a driver whose calls suspend (Interleave.v: a request = start / driver call / finish) ---- *)
 
 (* after ANY interleaving of segments (any number of requests in flight) whose schedule satisfies [sched_ok] — the clock is
-   not advanced while a request is suspended, and the removal of a DELETE runs with the port's cache still empty and no
-   suspended query holding the port's live cache dict — every cached entry is older than the cache age and equals what the
-   store answers now *)
+   not advanced while a request is suspended; a request starts under an identifier that is not in flight — every cached
+   entry is older than the cache age and, unless a DELETE of its port is suspended in the driver, equals what the store
+   answers now.  (The DELETE's second invalidation, 6506e34, is what makes the exemption end with the DELETE.) *)
 Theorem C18_overlap_cache_invariant : forall cfg es st0,
   0 <= cfg_min_age cfg -> st_cache st0 = [] -> sched_ok cfg (istate_of st0) es ->
-  cache_ok cfg (i_st (fst (irun cfg (istate_of st0) es))).
+  let s := fst (irun cfg (istate_of st0) es) in
+  forall p t v, cache_get (st_cache (i_st s)) p t = Some v ->
+    t + cfg_min_age cfg < st_now (i_st s)
+    /\ exists k, port_kind cfg p = Some k /\ (~ pending_del s p -> v = fresh_val (st_store (i_st s)) p k t).
 Proof. exact (fun cfg es st0 A E S => proj1 (irun_keeps_invariant cfg es (istate_of st0) A (J_initial cfg st0 E) S)). Qed.
 Print Assumptions C18_overlap_cache_invariant.
 
-(* hence a by-timestamp query that runs alone after any such overlapping history answers exactly the specification *)
+(* hence a by-timestamp query that runs alone after any such overlapping history, on a port that has no DELETE in flight
+   (in particular when nothing is in flight: [C18_nothing_in_flight]), answers exactly the specification *)
 Theorem C18_by_timestamp_after_overlaps : forall cfg st0 es p q k tss,
   0 <= cfg_min_age cfg -> st_cache st0 = [] -> sched_ok cfg (istate_of st0) es ->
   let s := fst (irun cfg (istate_of st0) es) in
+  ~ pending_del s p ->
   abstract cfg (st_now (i_st s)) (ApiGet p q) = AByTimestamp p k tss ->
   snd (istep cfg s (ISeq (ApiGet p q))) = REntries (by_timestamp_spec (st_store (i_st s)) p k tss).
 Proof. exact by_timestamp_after_overlaps. Qed.
 Print Assumptions C18_by_timestamp_after_overlaps.
 
-(* the DELETE premise holds whenever the removal follows the invalidation directly (no suspension in between) *)
-Theorem C18_removal_after_invalidation_is_clean : forall cfg s id p q from to,
-  J cfg s -> parse_delete cfg p q = PDOk from to ->
-  event_ok (fst (istep cfg s (IStart id (ApiDelete p q)))) (IDriver id).
-Proof. exact start_then_driver_clean. Qed.
-Print Assumptions C18_removal_after_invalidation_is_clean.
+Theorem C18_nothing_in_flight : forall s p, i_fly s = [] -> ~ pending_del s p.
+Proof. exact nothing_in_flight. Qed.
+Print Assumptions C18_nothing_in_flight.
 
 (* the premise is decidable; the harness evaluates [sched_okb] on every schedule it runs *)
 Theorem C18_sched_okb_sound : forall cfg es s, sched_okb cfg s es = true -> sched_ok cfg s es.
@@ -181,8 +183,15 @@ Example C18_overlap_nonvacuous :
   let del f t := {| q_from := QInt f; q_to := QInt t; q_limit := QAbsent; q_timestamps := None |} in
   let es := [IStart 1 (ApiGet 1 (byts [2500])); IDriver 1; IStart 2 (ApiDelete 1 (del 2000 3000)); IDriver 2; IFinish 1;
              IFinish 2; ISeq (ApiGet 1 (byts [2500]))] in
+  (* the removal suspended after the first invalidation while a whole query runs: the stale entry is cached and popped again *)
+  let es2 := [IStart 1 (ApiDelete 1 (del 2000 3000)); IStart 2 (ApiGet 1 (byts [2500])); IDriver 2; IFinish 2; IDriver 1] in
   sched_okb cfg (istate_of st0) es = true
   /\ snd (irun cfg (istate_of st0) es)
      = [RNone; RNone; RNone; RNone; REntries [Some (2500, VNum 10)]; RDone; REntries [Some (2500, VNum 6)]]
-  /\ st_cache (i_st (fst (irun cfg (istate_of st0) es))) = [(1, 2500, Some (VNum 6))].
+  /\ st_cache (i_st (fst (irun cfg (istate_of st0) es))) = [(1, 2500, Some (VNum 6))]
+  /\ sched_okb cfg (istate_of st0) (es2 ++ [IFinish 1; ISeq (ApiGet 1 (byts [2500]))]) = true
+  /\ st_cache (i_st (fst (irun cfg (istate_of st0) es2))) = [(1, 2500, Some (VNum 10))]
+  /\ i_fly (fst (irun cfg (istate_of st0) (es2 ++ [IFinish 1]))) = []
+  /\ snd (irun cfg (istate_of st0) (es2 ++ [IFinish 1; ISeq (ApiGet 1 (byts [2500]))]))
+     = [RNone; RNone; RNone; REntries [Some (2500, VNum 10)]; RNone; RDone; REntries [Some (2500, VNum 6)]].
 Proof. vm_compute. repeat split. Qed.
